@@ -304,6 +304,8 @@ def play(run, T, steps, opts, ti_fn, tag, stream="history", check_key=True):
                 key = "+".join(sorted(reasons)) if reasons else "history:" + hashlib.sha1(repr(steps).encode()).hexdigest()[:12]
                 only_c = [l for l in cached if l not in fresh]
                 only_f = [l for l in fresh if l not in cached]
+                if not reasons and not only_c and only_f and all(":staticFunction:" in l for l in only_f):
+                    key = "builddir-misses-staticFunction"
                 what = "run %d (-j%d) with the build dir differs from a run without it: only cached %s, only fresh %s" % (
                     nrun, jobs, only_c[:3], only_f[:3])
                 problems.append((key, what, {"history": log[:], "options": INC + list(opts), "files": files,
